@@ -702,6 +702,11 @@ class Engine(
                         for tag in common_columns
                     )
                 columns_available = {**lhs_payload.columns_available, **rhs_payload.columns_available}
+                # A column that only the left-hand operand exposes must come
+                # from it, even if the right-hand payload happens to offer a
+                # column with the same tag that its relation does not have.
+                for tag in lhs.columns - rhs.columns:
+                    columns_available[tag] = lhs_payload.columns_available[tag]
                 if predicate.as_trivial() is not True:
                     on_terms.extend(self.convert_flattened_predicate(predicate, columns_available))
                 on_clause: sqlalchemy.sql.ColumnElement
